@@ -1626,6 +1626,112 @@ fn generate<C: Crypto>(crypto: &C, tier: &str, seed: u64) -> (Vec<String>, BTree
                 muts: vec!["-".into(), format!("w{}", hex(&w_next)), format!("w{}", hex(&wires[1]))],
             },
         );
+        // ------------------------------------------------------------ GS: an EXISTING group session in the table
+        // (the ephemeral receive-side session of a sender, alive while an exchange of it is): datagrams
+        // addressed to it - same address, group flag, group session id, same or no source node id - are
+        // looked up to it like to any secure session and must authenticate under ITS receive key.
+        {
+            let forged_clear = |hdr: &PacketHdr, payload: &[u8], tail: usize| -> String {
+                let mut w = clear_wire(hdr, payload);
+                w.extend(std::iter::repeat(0xa5u8).take(tail));
+                format!("w{}", hex(&w))
+            };
+            // (a) the session left behind by the real group receive path (prelude), slot 1
+            let hdr_nosrc = ghdr(0, 0, 704, None, None, Some(0x0101));
+            let hdr_ctl = ghdr(0, 0x40, 705, Some(NODE_A), Some(0), None);
+            let hdr_ack = mk_hdr(Some(NODE_A), None, Some(0x0101), groups[0].sid, 0x01, 706, 81, 0x17, 0xfff1, 9, Some(0x1234), Some(77));
+            let (e_nosrc, w_nosrc) = honest(crypto, k1, NODE_A, &hdr_nosrc, &[6, 6, 6]);
+            let (e_ctl, w_ctl) = honest(crypto, k1, NODE_A, &hdr_ctl, &[7]);
+            let (e_ack, w_ack) = honest(crypto, k1, NODE_A, &hdr_ack, &[8, 8]);
+            // the right header sealed under another group key, under a unicast key, by another node
+            let (e_k2, w_k2) = honest(crypto, k2, NODE_A, &hdr_next, &[5, 5]);
+            let (e_k11, w_k11) = honest(crypto, 11, NODE_A, &hdr_next, &[5, 5]);
+            let (e_nc, w_nc) = honest(crypto, k1, NODE_C, &hdr_next, &[5, 5]);
+            let mut world3 = world2.clone();
+            world3.extend([e_nosrc, e_ctl, e_ack, e_k2, e_k11, e_nc]);
+            let mut muts = vec!["-".to_string(), "F".into(), "T".into(), "X".into()];
+            for (h, pl) in [(&hdr_next, &[5u8, 5][..]), (&hdr_nosrc, &[6, 6, 6][..]), (&hdr_ctl, &[7][..]), (&hdr_ack, &[8, 8][..])] {
+                // cleartext protocol header and payload where the sealed body belongs, with and without a fake tag
+                muts.push(forged_clear(h, pl, 16));
+                muts.push(forged_clear(h, pl, 0));
+                muts.push(forged_clear(h, &payload_of(&mut g.rng, 40), 16));
+            }
+            for w in [&w_nosrc, &w_ctl, &w_ack, &w_k2, &w_k11, &w_nc] {
+                muts.push(format!("w{}", hex(w)));
+            }
+            g.push_d(
+                "GS",
+                DCase {
+                    world: world3.clone(),
+                    sessions: vec![unicast.clone()],
+                    groups: groups.clone(),
+                    from: addr_a(),
+                    oracle: (7, None),
+                    prelude: vec![Pre::Wire(wires[0].clone())],
+                    wire: w_next.clone(),
+                    muts: muts.clone(),
+                },
+            );
+            // (b) a group session installed directly (no fabric, no group key at all on the node): keys 51 / 52
+            const SENDER: u64 = 0x1122_3344_5566_7788;
+            let gsid = 0x4d2eu16;
+            for (variant, deck, enck, pnode) in [(0usize, 51u32, 51u32, Some(SENDER)), (1, 51, 52, Some(SENDER)), (2, 51, 51, None)] {
+                let gs = sess(Mode::Group(1, 0x0102), addr_a(), NODE_B, pnode, deck, enck, gsid, gsid);
+                let nonce_node = pnode.unwrap_or(0);
+                let h1 = mk_hdr(Some(SENDER), None, Some(0x0102), gsid, 0x01, 1000, 0x55, 0x01, 1, 8, None, None);
+                let h2 = mk_hdr(None, None, Some(0x0102), gsid, 0x01, 1001, 0x56, 0x05, 1, 8, None, None);
+                let pl = [0x15u8, 0x28, 0x00, 0x28, 0x01, 0x18];
+                let (e1, w1) = honest(crypto, 51, nonce_node, &h1, &pl);
+                let (e2, w2) = honest(crypto, 51, nonce_node, &h2, &pl);
+                let (e3, w3) = honest(crypto, 52, nonce_node, &h1, &pl);
+                let (e4, w4) = honest(crypto, 51, NODE_C, &h1, &pl);
+                let mut muts = vec!["-".to_string(), "F".into(), "T".into(), "X".into()];
+                muts.push(forged_clear(&h1, &pl, 16));
+                muts.push(forged_clear(&h1, &pl, 0));
+                muts.push(forged_clear(&h2, &pl, 16));
+                muts.push(forged_clear(&h1, &payload_of(&mut g.rng, 64), 16));
+                for w in [&w2, &w3, &w4] {
+                    muts.push(format!("w{}", hex(w)));
+                }
+                // from elsewhere the same datagram finds no session (and no group key)
+                muts.push(format!("a{}", AddrS::udp4(1, 5540).show()));
+                let _ = variant;
+                g.push_d(
+                    "GS",
+                    DCase {
+                        world: vec![e1, e2, e3, e4],
+                        sessions: vec![unicast.clone(), gs],
+                        groups: vec![],
+                        from: addr_a(),
+                        oracle: (7, None),
+                        prelude: vec![],
+                        wire: w1,
+                        muts,
+                    },
+                );
+            }
+            // the same forgery against a CASE and a PASE session: cleartext where the sealed body belongs
+            for mode in [Mode::Case(1), Mode::Pase(0)] {
+                let pn = if mode == Mode::Pase(0) { 0 } else { NODE_A };
+                let target = sess(mode, addr_a(), NODE_B, Some(pn), 11, 12, 7, 9);
+                let h = mk_hdr(None, None, None, 7, 0, 900, 0x57, 0x05, 1, 2, None, None);
+                let pl = [1u8, 2, 3, 4];
+                let (e, w) = honest(crypto, 11, pn, &h, &pl);
+                g.push_d(
+                    "GS",
+                    DCase {
+                        world: vec![e],
+                        sessions: table_with(target),
+                        groups: vec![],
+                        from: addr_a(),
+                        oracle: (0, None),
+                        prelude: vec![],
+                        wire: w,
+                        muts: vec!["-".into(), forged_clear(&h, &pl, 16), forged_clear(&h, &pl, 0), forged_clear(&h, &payload_of(&mut g.rng, 30), 16)],
+                    },
+                );
+            }
+        }
         // malformed group headers, sealed honestly: no source id; no destination; unknown group;
         // unknown session id; control message to our node id (0) and to another node id
         let odd: Vec<PacketHdr> = vec![
